@@ -134,13 +134,13 @@ def op_strategy(features):
                 st.tuples(st.just('minimize'))]
     if 'savepoint' in features:
         # savepoint-heavy mix: long transactions with many savepoints and rollbacks
-        ops = [o for o in ops] + [ops[0], ops[2], ops[3], ops[4]]
+        ops = [o for o in ops] + [o.map(lambda x: x) for o in (ops[0], ops[2], ops[3], ops[4])]   # (one_of collapses identical objects)
         sp = [st.tuples(st.just('savepoint')), st.tuples(st.just('savepoint')), st.tuples(st.just('savepoint')),
               st.tuples(st.just('rollback'), st.integers(0, 5)),
               st.tuples(st.just('rollback'), st.integers(0, 5)),
               st.tuples(st.just('rollback'), st.integers(0, 1)),
               st.tuples(st.just('rollback'), st.integers(0, 1))]
-        ops += sp + sp
+        ops += sp + [o.map(lambda x: x) for o in sp]
     return st.one_of(*ops).map(list)
 
 
